@@ -494,6 +494,13 @@ def check(pid, tier, seed):
     coverage = {}
     replay_n = 0
 
+    # --- 0. optional per-property preparation (e.g. C20 regenerates a Lean table from the repo) ---
+    extra = load_extra(pid)
+    if extra is not None and hasattr(extra, "pre"):
+        os.makedirs(os.path.join(WORK, pid), exist_ok=True)
+        extra.pre({"pid": pid, "tier": tier, "seed": seed, "root": ROOT, "repo": REPO, "lean": LEAN,
+                   "work": os.path.join(WORK, pid), "sh": sh, "log": log, "MachineryError": MachineryError})
+
     # --- 1. theorems -------------------------------------------------------------------------
     theorems = reg.get("theorems", [])
     module = reg.get("lean_module")
